@@ -233,6 +233,8 @@ inline std::vector<T> gen_weights(Tape& t, std::size_t max_n, std::string* how =
     case 2: sname = "*2^-20"; for (auto& x : w) { x *= T(1.0 / 1048576.0); } break;
     default: sname = "*1e6"; for (auto& x : w) { x *= T(1e6); } break;
     }
+    // no denormal-sized weights: a caller's weights are ordinary numbers
+    for (auto& x : w) { if (x > T(0) && x < T(1e-30)) { x = T(1e-30); } }
     bool any = false;
     for (auto x : w) { if (x > T(0)) { any = true; } }
     if (!any) { w[t.pick(n)] = T(1); }
